@@ -194,6 +194,23 @@ func (p *C08) Gen(seed uint64, i int, tier string) *scen.Scenario {
 	return sc
 }
 
+// SameViolation: two race reports are the same finding when they share a racing function.
+func (p *C08) SameViolation(rule, w1, w2 string) bool {
+	if rule != "C08.datarace" {
+		return false
+	}
+	a := strings.Split(strings.TrimPrefix(w1, "at="), "<")
+	b := strings.Split(strings.TrimPrefix(w2, "at="), "<")
+	for _, x := range a {
+		for _, y := range b {
+			if x != "" && x == y {
+				return true
+			}
+		}
+	}
+	return false
+}
+
 var tokRe = regexp.MustCompile(`#T[0-9]+#`)
 
 func (p *C08) WellFormed(sc *scen.Scenario) bool {
